@@ -1,6 +1,72 @@
-(* Properties_C06.v -- property theorems only (placeholder until the proofs land). *)
-From SC Require Import Base Cfg Comb ModStr ModMem.
+(* Properties_C06.v -- C06: success means the exact, complete result
+   Only theorem statements, each closed by [exact <lemma>], with Print Assumptions beneath. *)
+From Coq Require Import List ZArith Lia Bool.
+From SC Require Import Base Wp Cfg Comb CombProofs CopySpec ModStr ModMem ProofsStr ProofsMem SpecStr SpecMem PropStr FnProps PropDefs.
 From SC.Gen Require Import Consts.
+Import ListNotations.
+Local Open Scope Z_scope.
+
+(* link from the wp statements below to executions: for every allocation-failure oracle,
+   the result and final memory of [run] satisfy the postcondition *)
+Theorem C06_wp_sound : forall (A : Type) (fail : nat -> bool) (p : prog A) st Q,
+  wp p (wm st) Q -> let '(a, st') := run fail p st in Q a (wm st').
+Proof. exact (@wp_run). Qed.
+Print Assumptions C06_wp_sound.
+
+(* ---- copy / concatenate family (generated from the table in harness/gen_fnprops.py) ---- *)
+Theorem C06_strcpy_s : forall (c : cfg) (d dmax s destbos : Z) (m : mem) (L : Z), pre_strcpy_s c d dmax s destbos m L ->
+  wp (strcpy_s c d dmax s destbos) m (fun r m' => (r = EOK -> exact_result 1 m m' d dmax s 0 L) /\ (dmax <= L -> r <> EOK)).
+Proof. exact strcpy_s_C06. Qed.
+Print Assumptions C06_strcpy_s.
+Theorem C06_wcscpy_s : forall (c : cfg) (d dmax s destbos : Z) (m : mem) (L g : Z), pre_wcscpy_s c d dmax s destbos m L g ->
+  wp (wcscpy_s c d dmax s destbos) m (fun r m' => (r = EOK -> exact_result (wchar_w c) m m' d dmax s 0 L) /\ (dmax <= L -> r <> EOK)).
+Proof. exact wcscpy_s_C06. Qed.
+Print Assumptions C06_wcscpy_s.
+Theorem C06_strncpy_s : forall (c : cfg) (d dmax s slen destbos srcbos : Z) (m : mem) (t : Z), pre_strncpy_s c d dmax s slen destbos srcbos m t ->
+  wp (strncpy_s c d dmax s slen destbos srcbos) m (fun r m' => (r = EOK -> exact_result 1 m m' d dmax s 0 t) /\ (dmax <= t -> r <> EOK)).
+Proof. exact strncpy_s_C06. Qed.
+Print Assumptions C06_strncpy_s.
+Theorem C06_strcat_s : forall (c : cfg) (d dmax s destbos : Z) (m : mem) (P L : Z), pre_strcat_s c d dmax s destbos m P L ->
+  wp (strcat_s c d dmax s destbos) m (fun r m' => (r = EOK -> exact_result 1 m m' d dmax s P L) /\ (dmax - P <= L -> r <> EOK)).
+Proof. exact strcat_s_C06. Qed.
+Print Assumptions C06_strcat_s.
+Theorem C06_strncat_s : forall (c : cfg) (d dmax s slen destbos srcbos : Z) (m : mem) (P t : Z), pre_strncat_s c d dmax s slen destbos srcbos m P t ->
+  wp (strncat_s c d dmax s slen destbos srcbos) m (fun r m' => (r = EOK -> exact_result 1 m m' d dmax s P t) /\ (dmax - P <= t -> r <> EOK)).
+Proof. exact strncat_s_C06. Qed.
+Print Assumptions C06_strncat_s.
+
+(* memory family: success = exactly the source bytes moved, nothing else changed (moved) *)
+Theorem C06_memcpy_s : forall c d dmax s slen destbos srcbos m, d <> 0 -> s <> 0 -> 1 <= dmax -> 1 <= slen -> ((destbos = BOS_UNKNOWN /\ dmax <= rmax_mem c) \/ (destbos <> BOS_UNKNOWN /\ dmax <= destbos)) -> (srcbos = BOS_UNKNOWN \/ slen * 1 <= srcbos) -> wp (memcpy_s c d dmax s slen destbos srcbos) m (mem_copy_post c 1 true d (eff_dmax false dmax destbos) s slen m).
+Proof. intros. exact (mem_copy_gen_spec c 1 (rmax_mem c) false true EOVERFLOW false d dmax s slen destbos srcbos m ltac:(lia) H H0 H1 H2 H3 H4). Qed.
+Print Assumptions C06_memcpy_s.
+Theorem C06_memmove_s : forall c d dmax s slen destbos srcbos m, d <> 0 -> s <> 0 -> 1 <= dmax -> 1 <= slen -> ((destbos = BOS_UNKNOWN /\ dmax <= rmax_mem c) \/ (destbos <> BOS_UNKNOWN /\ dmax <= destbos)) -> (srcbos = BOS_UNKNOWN \/ slen * 1 <= srcbos) -> wp (memmove_s c d dmax s slen destbos srcbos) m (mem_copy_post c 1 false d (eff_dmax false dmax destbos) s slen m).
+Proof. intros. exact (mem_copy_gen_spec c 1 (rmax_mem c) false false EOVERFLOW false d dmax s slen destbos srcbos m ltac:(lia) H H0 H1 H2 H3 H4). Qed.
+Print Assumptions C06_memmove_s.
+Theorem C06_memcpy16_s : forall c d dmax s slen destbos srcbos m, d <> 0 -> s <> 0 -> 1 <= dmax -> 1 <= slen -> ((destbos = BOS_UNKNOWN /\ dmax <= rmax_mem c) \/ (destbos <> BOS_UNKNOWN /\ dmax <= destbos)) -> (srcbos = BOS_UNKNOWN \/ slen * 2 <= srcbos) -> wp (memcpy16_s c d dmax s slen destbos srcbos) m (mem_copy_post c 2 true d (eff_dmax true dmax destbos) s slen m).
+Proof. intros. exact (mem_copy_gen_spec c 2 (rmax_mem c) true true ESLEMAX false d dmax s slen destbos srcbos m ltac:(lia) H H0 H1 H2 H3 H4). Qed.
+Print Assumptions C06_memcpy16_s.
+Theorem C06_memmove16_s : forall c d dmax s slen destbos srcbos m, d <> 0 -> s <> 0 -> 1 <= dmax -> 1 <= slen -> ((destbos = BOS_UNKNOWN /\ dmax <= rmax_mem c) \/ (destbos <> BOS_UNKNOWN /\ dmax <= destbos)) -> (srcbos = BOS_UNKNOWN \/ slen * 2 <= srcbos) -> wp (memmove16_s c d dmax s slen destbos srcbos) m (mem_copy_post c 2 false d (eff_dmax true dmax destbos) s slen m).
+Proof. intros. exact (mem_copy_gen_spec c 2 (rmax_mem c) true false EOVERFLOW false d dmax s slen destbos srcbos m ltac:(lia) H H0 H1 H2 H3 H4). Qed.
+Print Assumptions C06_memmove16_s.
+Theorem C06_memcpy32_s : forall c d dmax s slen destbos srcbos m, d <> 0 -> s <> 0 -> 1 <= dmax -> 1 <= slen -> ((destbos = BOS_UNKNOWN /\ dmax <= rmax_mem c) \/ (destbos <> BOS_UNKNOWN /\ dmax <= destbos)) -> (srcbos = BOS_UNKNOWN \/ slen * 4 <= srcbos) -> wp (memcpy32_s c d dmax s slen destbos srcbos) m (mem_copy_post c 4 true d (eff_dmax true dmax destbos) s slen m).
+Proof. intros. exact (mem_copy_gen_spec c 4 (rmax_mem c) true true ESLEMAX false d dmax s slen destbos srcbos m ltac:(lia) H H0 H1 H2 H3 H4). Qed.
+Print Assumptions C06_memcpy32_s.
+Theorem C06_memmove32_s : forall c d dmax s slen destbos srcbos m, d <> 0 -> s <> 0 -> 1 <= dmax -> 1 <= slen -> ((destbos = BOS_UNKNOWN /\ dmax <= rmax_mem c) \/ (destbos <> BOS_UNKNOWN /\ dmax <= destbos)) -> (srcbos = BOS_UNKNOWN \/ slen * 4 <= srcbos) -> wp (memmove32_s c d dmax s slen destbos srcbos) m (mem_copy_post c 4 false d (eff_dmax true dmax destbos) s slen m).
+Proof. intros. exact (mem_copy_gen_spec c 4 (rmax_mem c) true false EOVERFLOW false d dmax s slen destbos srcbos m ltac:(lia) H H0 H1 H2 H3 H4). Qed.
+Print Assumptions C06_memmove32_s.
+Theorem C06_memset_s : forall c d dmax v n m, d <> 0 -> 1 <= n <= dmax -> dmax <= rmax_mem c -> 0 <= v <= 255 -> wp (memset_s c d dmax v n BOS_UNKNOWN) m (fun r m' => r = EOK /\ forall a, m' a = if in_range d n a then v else m a).
+Proof. exact memset_s_spec. Qed.
+Print Assumptions C06_memset_s.
+Theorem C06_memzero_s : forall c d len destbos m, d <> 0 -> 1 <= len * 1 -> ((destbos = BOS_UNKNOWN /\ len * 1 <= rmax_mem c) \/ (destbos <> BOS_UNKNOWN /\ len * 1 <= destbos)) -> wp (memzero_s c d len destbos) m (fun r m' => r = EOK /\ forall a, m' a = if in_range d (len * 1) a then 0 else m a).
+Proof. intros c d len destbos m. exact (memzerow_s_spec c 1 d len destbos m). Qed.
+Print Assumptions C06_memzero_s.
+Theorem C06_memzero16_s : forall c d len destbos m, d <> 0 -> 1 <= len * 2 -> ((destbos = BOS_UNKNOWN /\ len * 2 <= rmax_mem c) \/ (destbos <> BOS_UNKNOWN /\ len * 2 <= destbos)) -> wp (memzero16_s c d len destbos) m (fun r m' => r = EOK /\ forall a, m' a = if in_range d (len * 2) a then 0 else m a).
+Proof. intros c d len destbos m. exact (memzerow_s_spec c 2 d len destbos m). Qed.
+Print Assumptions C06_memzero16_s.
+Theorem C06_memzero32_s : forall c d len destbos m, d <> 0 -> 1 <= len * 4 -> ((destbos = BOS_UNKNOWN /\ len * 4 <= rmax_mem c) \/ (destbos <> BOS_UNKNOWN /\ len * 4 <= destbos)) -> wp (memzero32_s c d len destbos) m (fun r m' => r = EOK /\ forall a, m' a = if in_range d (len * 4) a then 0 else m a).
+Proof. intros c d len destbos m. exact (memzerow_s_spec c 4 d len destbos m). Qed.
+Print Assumptions C06_memzero32_s.
+
 Theorem C06_cfg_repo_wf : wf_cfg cfg_repo.
 Proof. exact wf_cfg_repo. Qed.
 Print Assumptions C06_cfg_repo_wf.
